@@ -148,8 +148,9 @@ HARNESSES = {
     "k1_no_overflow": {
         "property": "C08", "layout": K1_LAYOUT, "unwind": None, "stubs": K1_STUBS,
         "assumptions": K1_ASSUME,
-        "expected": "for 1 <= p <= 10^9 get_precidence raises no arithmetic overflow/panic, l_bp == p, r_bp == l_bp+1 "
-                    "side for LEFT / l_bp-1 side for RIGHT, and an unregistered name yields (-1,-1)",
+        "expected": "for 1 <= p <= 10^9 get_precidence raises no arithmetic overflow/panic (default checks), a registered "
+                    "operator gets l_bp >= 1, and an unregistered name's binding powers rank below every registered "
+                    "operator's l_bp (independent of how binding powers are encoded)",
     },
     # ---- K2 / C17 ----
     "k2_from_i8": _k2("i8"), "k2_from_i16": _k2("i16"), "k2_from_i32": _k2("i32"),
@@ -318,7 +319,8 @@ CHECK_BLOCK = re.compile(
 THREAD_PREFIX = re.compile(r"^Thread \d+: ?", re.M)
 ICE_MARKERS = ("internal compiler error", "Kani unexpectedly panicked", "thread 'rustc' panicked",
                "error: the compiler unexpectedly panicked")
-OOM_MARKERS = ("bad_alloc", "Out of memory", "out of memory", "Cannot allocate memory", "memory exhausted")
+OOM_MARKERS = ("bad_alloc", "Out of memory", "out of memory", "Cannot allocate memory", "memory exhausted",
+               "memory allocation of")
 
 
 def clean_desc(d):
@@ -393,7 +395,14 @@ def parse_harness_log(text, timeout_s):
     elif failed:
         # FAILED without any parsable failing check: CBMC crashed / was killed (e.g. ulimit)
         rec["verdict"] = "ERROR"
-        rec["error"] = "VERIFICATION:- FAILED without a failing check (CBMC crashed or was killed): " + tail(text, 8)
+        ms = re.search(r"CBMC failed with status (\d+)", text)
+        if ms and ms.group(1) == "6":
+            rec["error"] = ("CBMC aborted (status 6 = SIGABRT: std::bad_alloc, i.e. out of memory under "
+                            "ulimit -v %d kB)" % VMEM_KB)
+        elif ms:
+            rec["error"] = "CBMC failed with status %s (crashed or was killed)" % ms.group(1)
+        else:
+            rec["error"] = "VERIFICATION:- FAILED without a failing check (CBMC crashed or was killed): " + tail(text, 8)
     elif successful:
         bad = {k: v for k, v in rec["covers"].items() if v != "SATISFIED"}
         if n_checks == 0:
@@ -548,7 +557,9 @@ def run_unit(scratch, repo, groups, tag, timeout_s, target_dir, logs_dir):
     started = set(re.findall(r"Checking harness (\S+?)\.\.\.", unit_text))
     built = "Checking harness" in unit_text or os.path.isdir(outdir)
     if not built:
-        ice = any(k in unit_text for k in ICE_MARKERS)
+        # compiler crash (ICE, abort on allocation failure under ulimit -v, killed) vs. ordinary compile errors
+        ice = (any(k in unit_text for k in ICE_MARKERS) or any(k in unit_text for k in OOM_MARKERS)
+               or re.search(r"\(signal: \d+", unit_text) is not None)
         msg = compiler_message_tail(unit_text)
         for h in hs:
             r = base_record(h)
@@ -556,7 +567,7 @@ def run_unit(scratch, repo, groups, tag, timeout_s, target_dir, logs_dir):
                 r.update(verdict="TIMEOUT", error="cargo kani build exceeded %d s\n%s" % (outer, tail(unit_text, 10)))
             else:
                 r.update(verdict="ERROR" if ice else "BUILD_ERROR",
-                         error=("Kani compiler ICE:\n" if ice else "crate + harness did not compile:\n") + msg)
+                         error=("Kani compiler crashed (ICE / signal / out of memory):\n" if ice else "crate + harness did not compile:\n") + msg)
             r["log"] = unit_log
             records[h] = r
         return records, (rc != 124), src
